@@ -146,6 +146,11 @@ _LEVELS = [
 for _a, (_big, _mid) in zip(ALPHABETS, _LEVELS):
     _a['levels'] = _big
     _a['mlevels'] = _mid
+# correction terms of the MEV models with correction for endogenous sampling (logarithms of sampling ratios; one of the
+# three values is 0: a stratum sampled at rate one), per alphabet
+_CORS = [[0.0, -0.9, 1.4], [0.7, 0.0, -1.6], [-0.35, 2.1, 0.0], [0.0, 1.25, -2.3], [-1.1, 0.0, 0.45]]
+for _a, _c in zip(ALPHABETS, _CORS):
+    _a['cors'] = _c
 
 
 def alphabet(seed):
@@ -336,6 +341,61 @@ CNL_HELPERS = ['get_mev_for_cross_nested', 'getMevForCrossNested', 'get_mev_for_
 LOG_OF = {'loglogit': 'logit', 'lognested': 'nested', 'lognested_mev_mu': 'nested_mev_mu', 'logcnl': 'cnl',
           'logcnlmu': 'cnlmu', 'logmev': 'mev', 'lognestedMevMu': 'nestedMevMu', 'logcnl_avail': 'cnl_avail'}
 LOG_OF.update({f'logmev+{h}': f'mev+{h}' for h in NESTED_HELPERS + CNL_HELPERS})
+# MEV models with one more argument - a correction term added to V_i + ln G_i (correction for endogenous sampling): the
+# probability function, its log function and their exported backward-compatible names; '<one of them>+<helper>' is the
+# model built from the library's own ln G_i helper
+ENDO_MODELS = ['mev_endogenous_sampling', 'logmev_endogenous_sampling']
+ENDO_ALIASES = ['mev_endogenousSampling', 'logmev_endogenousSampling']
+LOG_OF.update({'logmev_endogenous_sampling': 'mev_endogenous_sampling', 'logmev_endogenousSampling': 'mev_endogenousSampling'})
+LOG_OF.update({f'logmev_endogenous_sampling+{h}': f'mev_endogenous_sampling+{h}' for h in NESTED_HELPERS + CNL_HELPERS})
+# forms of the correction terms: numbers, a data column per alternative, Numeric, fixed Betas, numbers / Numeric
+# alternating with an int 0 for a zero term, free Betas
+CORR_FORMS = ['float', 'var', 'numeric', 'fixbeta', 'mixed', 'freebeta']
+
+
+def is_endo(model):
+    """entry points that take the dict of correction terms"""
+    return model.split('+')[0] in ENDO_MODELS + ENDO_ALIASES
+
+
+def build_correction(alts, form, corr):
+    """dict of the correction terms; the alternatives are listed in an order of their own (rotated to the right: for
+    J >= 3 it differs from the orders of the utilities, of the availabilities and of the ln G_i)."""
+    from biogeme.expressions import Variable, Numeric
+    out = {}
+    idx = list(range(len(alts)))
+    for n, k in enumerate(idx[-1:] + idx[:-1]):
+        a, x = alts[k], float(corr[k])
+        if form == 'float':
+            out[a] = x
+        elif form == 'numeric':
+            out[a] = Numeric(x)
+        elif form == 'mixed':
+            out[a] = 0 if x == 0.0 else (x if n % 2 else Numeric(x))
+        elif form == 'fixbeta':
+            out[a] = _beta(f'bc_{a}', x, 1)
+        elif form == 'freebeta':
+            out[a] = _beta(f'bc_{a}', x, 0)
+        elif form == 'var':
+            out[a] = Variable(f'COR_{a}')
+        else:
+            raise ValueError(form)
+    return out
+
+
+def corr_columns(alts, corr, nrows):
+    """the correction terms as data columns (the same value in every row)"""
+    return {f'COR_{a}': [float(x)] * nrows for a, x in zip(alts, corr)}
+
+
+def corr_vectors(alph, J, mode):
+    """correction vectors (one term per alternative) over the 3-value grid of the alphabet (it holds 0: a stratum sampled
+    at rate one).  'full': every assignment (3^J); 'reduced': the six arithmetic walks g[(r + k s) % 3], r in 0..2, s in
+    1..2 (J = 2: every ordered pair of distinct values; no vector of equal terms)."""
+    g = alph['cors']
+    if mode == 'full':
+        return [list(c) for c in itertools.product(g, repeat=J)]
+    return [[g[(r + k * s) % 3] for k in range(J)] for s in (1, 2) for r in range(3)]
 
 
 def uses_mu(model):
@@ -350,14 +410,18 @@ def call_helper(helper, V, av, nests, mu=None):
     return getattr(models, helper)(V, av, nests)
 
 
-def build_model(model, V, av, nests, choice, mu=None, log_gi=None):
+def build_model(model, V, av, nests, choice, mu=None, log_gi=None, correction=None):
     from biogeme import models
     if '+' in model:
         # MEV model assembled by the user from the library's own ln G_i helper
         outer, helper = model.split('+')
         if log_gi is None:
             log_gi = call_helper(helper, V, av, nests, mu)
+        if is_endo(outer):
+            return getattr(models, outer)(V, log_gi, av, correction, choice)
         return getattr(models, outer)(V, log_gi, av, choice)
+    if is_endo(model):
+        return getattr(models, model)(V, log_gi, av, correction, choice)
     if model in ('logit', 'loglogit'):
         return getattr(models, model)(V, av, choice)
     if model in ('nested', 'lognested', 'cnl', 'logcnl', 'cnl_avail', 'logcnl_avail'):
@@ -382,6 +446,8 @@ def eval_spec(spec, table, extra_cols=None):
     alts = table.alts
     J = len(alts)
     f = dict(default_forms(), **spec.get('forms', {}))
+    if spec.get('corr') is not None and f.get('corr') == 'var':
+        extra_cols = dict(extra_cols or {}, **corr_columns(alts, spec['corr'], len(table.groups) * J))
     db = table.database(extra_cols)
     u0 = table.us[0]
     pat0 = table.pats[0]
@@ -403,7 +469,10 @@ def eval_spec(spec, table, extra_cols=None):
                 log_gi[a] = Variable(f'LG_{a}')
         if spec.get('mu') is not None:
             mu = _param(f['mu'], 'mu_scale', spec['mu'])
-        return build_model(spec['model'], V, av, nests, choice, mu, log_gi)
+        corr = None
+        if spec.get('corr') is not None:
+            corr = build_correction(alts, f.get('corr', 'float'), spec['corr'])
+        return build_model(spec['model'], V, av, nests, choice, mu, log_gi, correction=corr)
 
     def run(expr, betas=None):
         vals = expr.get_value_c(database=db, betas=betas, prepare_ids=True)
@@ -459,6 +528,9 @@ def ref_spec_probs(spec, table):
                 P = R.mev_probs(gfun_of(spec), V, av)
             else:
                 raise ValueError(kind)
+            if spec.get('corr') is not None:
+                # MEV model with correction terms: the logit on V_i + ln G_i + correction_i
+                P = R.endogenous_sampling_probs(P, dict(zip(alts, spec['corr'])))
             cache[key] = [P[a] for a in alts]
         out.append(cache[key])
     return out
@@ -496,6 +568,9 @@ def nontrivial_group(spec, pat):
     alts = spec['alts']
     av = dict(zip(alts, pat))
     if sum(pat) < 2:
+        return False
+    if spec.get('corr') is not None and len({c for c, p in zip(spec['corr'], pat) if p}) < 2:
+        # equal correction terms on the available alternatives: the model is the one without correction
         return False
     kind = spec['kind']
     if kind == 'logit':
@@ -552,7 +627,7 @@ def key_model(spec):
         return m
     if m in ('logit', 'loglogit'):
         return 'logit-family'
-    if m in ('mev', 'logmev'):
+    if m in ('mev', 'logmev') or m in ENDO_MODELS + ENDO_ALIASES:
         return 'user-mev-family'
     return 'cross-nested-family' if ('cnl' in m or 'cross' in m.lower()) else 'nested-family'
 
@@ -578,6 +653,7 @@ def check_values(spec, table, vals, ref, rec, log_model=False, collect=None):
         grp = table.describe_group(g)
         key = f'{ID}|{clause}|{key_model(spec)}|{key_tail(spec)}'
         hist_txt = ''
+        corr_txt = f', correction terms {spec["corr"]}' if spec.get('corr') is not None else ''
         if spec.get('hist'):
             case = dict(part='hist', hist=spec['hist'], group=grp)
             hist_txt = f'; call {spec["hist"]["step"] + 1} of the history {spec["hist"]["history"]} made with the same argument objects'
@@ -585,7 +661,7 @@ def check_values(spec, table, vals, ref, rec, log_model=False, collect=None):
             case = dict(part='spec', spec=spec, group=grp, base=table.describe_group(table.base_of[g]))
         rec.violation(key, f'{clause}: model {model} {detail} at u={grp["u"]} avail={grp["avail"]} shift={grp["shift"]} '
                            f'(alts {alts}, structure alone={spec.get("alone")} nests={spec.get("nests")} mus={spec.get("mus")} '
-                           f'mu={spec.get("mu")}{hist_txt})', case, expected=expected, observed=observed)
+                           f'mu={spec.get("mu")}{corr_txt}{hist_txt})', case, expected=expected, observed=observed)
         if collect is not None:
             collect.append(key)
 
@@ -655,6 +731,8 @@ def record_cases(spec, table, vals, bad, rec):
                 key.append([spec['hist']['history'], spec['hist']['step']])
             if spec.get('evaluator'):
                 key.append(spec['evaluator'])
+            if spec.get('corr') is not None:
+                key.append(['corr', spec['corr']])
             key = json.dumps(key, sort_keys=True, default=list)
         ok = not any(bad[g] for g in gs)
         if spec.get('evaluator'):
@@ -806,6 +884,18 @@ def tasks(tier, seed):
     for K in (2, 3, 4):
         for ev in ('py', 'c0'):
             t.append(dict(part='ordered_nodb', K=K, ev=ev, seed=seed, tier=tier))
+    # (J) MEV models with correction terms (mev_endogenous_sampling / logmev_endogenous_sampling and their old names)
+    for J in range(2, Jmax + 1):
+        for ch in _chunks(endo_gens(alph, J, tier, seed), 4 if J == 2 else 2):
+            t.append(dict(part='endo', J=J, gens=list(ch), seed=seed, tier=tier))
+    for fam, J, ns in (('nested', 2, 0), ('nested', 3, 0), ('cnl', 2, 3), ('cnl', 3, 1)):
+        n = len(R.nested_structures(alph['labels'][:J]) if fam == 'nested' else
+                R.cnl_structures(alph['labels'][:J], 2, alph['splits'][:ns]))
+        sel = list(range(n))
+        if quick and (fam, J) == ('cnl', 3):
+            sel = [i for i in sel if (i + int(seed)) % 4 == 0]
+        for ch in _chunks(sel, 6 if quick else 3):
+            t.append(dict(part='endo_lib', fam=fam, J=J, ns=ns, structs=list(ch), seed=seed, tier=tier))
     return t
 
 
@@ -848,6 +938,10 @@ def run_task(task):
         _part_pyeval(task, alph, rec)
     elif part == 'ordered_nodb':
         _part_ordered_nodb(task, alph, rec)
+    elif part == 'endo':
+        _part_endo(task, alph, rec)
+    elif part == 'endo_lib':
+        _part_endo_lib(task, alph, rec)
     else:
         raise ValueError(part)
     return rec.result()
@@ -1081,6 +1175,75 @@ def _part_usermev(task, alph, rec):
     rec.sample(dict(part='usermev', alts=alts, generating_functions=len(gens)))
 
 
+# --------------------------------------------------------------------------- MEV models with correction terms
+# models.mev_endogenous_sampling / logmev_endogenous_sampling (and their exported backward-compatible names) are MEV models
+# built from user-supplied generating terms with one more argument: a correction term per alternative that is added to
+# V_i + ln G_i.  The clauses of the statement apply to them as they stand; the reference is the logit on
+# V_i + ln G_i + correction_i over the available alternatives (R.endogenous_sampling_probs on the MEV probabilities).
+
+def endo_gens(alph, J, tier, seed):
+    """indices of the generating functions used: J = 2 all; J = 3 every third, rotating with the seed (quick) / all;
+    J = 4 every fifth"""
+    n = len(usermev_generators(alph, J))
+    if J == 4:
+        return [g for g in range(n) if g % 5 == 0]
+    if J == 3 and tier == 'quick':
+        return [g for g in range(n) if (g + int(seed)) % 3 == 0]
+    return list(range(n))
+
+
+def _part_endo(task, alph, rec):
+    """the four entry points on hand-supplied ln G_i columns (computed by the reference from a generating function the
+    library does not know about), through the engine: every utility vector x availability pattern, small shifts and the
+    large common levels, every correction vector of the tier, the form of the correction terms rotating"""
+    J, tier = task['J'], task['tier']
+    alts = alph['labels'][:J]
+    gens = usermev_generators(alph, J)
+    vecs = corr_vectors(alph, J, 'full' if (J == 2 or (tier == 'thorough' and J == 3)) else 'reduced')
+    models = [(m, None) for m in ENDO_MODELS + ENDO_ALIASES]
+    for gi in task['gens']:
+        gen, gmu = gens[gi]
+        af = ('var', 'none', 'var')[gi % 3]
+        table = level_table(alph, J, 2, af, alph['levels'], two_shifted=True)
+        spec0 = dict(kind='usermev', alts=alts, gen=gen, gmu=gmu, lg='homogeneous')
+        cols = user_logGi_columns_h(spec0, table)
+        for ci, corr in enumerate(vecs):
+            forms = dict(av=af, corr=CORR_FORMS[(gi + ci) % len(CORR_FORMS)])
+            run_family(dict(spec0, forms=forms, corr=corr), models, table, rec, extra_cols=cols)
+    rec.sample(dict(part='endo', alts=alts, generating_functions=len(task['gens']), correction_vectors=len(vecs),
+                    first_vectors=vecs[:3]))
+
+
+def _part_endo_lib(task, alph, rec):
+    """the probability / log-probability pair fed with the dict of ln G_i returned by the library's own helpers
+    (get_mev_for_nested[_mu], get_mev_for_cross_nested[_mu] and their camelCase names, rotating), nested structures and
+    two-nest cross-nested structures, nests as objects or in the tuple syntax"""
+    J, tier, fam = task['J'], task['tier'], task['fam']
+    alts = alph['labels'][:J]
+    sc = alph['scale'][1]
+    helpers = NESTED_HELPERS if fam == 'nested' else CNL_HELPERS
+    structs = R.nested_structures(alts) if fam == 'nested' else R.cnl_structures(alts, 2, alph['splits'][:task['ns']])
+    vecs = corr_vectors(alph, J, 'full' if (tier == 'thorough' and J == 2) else 'reduced')
+    for si in task['structs']:
+        alone, nests = structs[si]
+        if not nests:
+            continue
+        mus = [alph['mus'][(si + k + 1) % 3] for k in range(len(nests))]
+        base = dict(kind=fam, alts=alts, alone=list(alone), nests=[(list(n) if fam == 'nested' else dict(n)) for n in nests],
+                    mus=mus)
+        for ci, corr in enumerate(vecs):
+            if tier == 'quick' and (ci + si) % 2:
+                continue
+            h = helpers[(si + ci) % len(helpers)]
+            af = ('var', 'var', 'none')[(si + ci) % 3]
+            forms = dict(av=af, corr=CORR_FORMS[(si + 2 * ci) % len(CORR_FORMS)], syntax=('obj', 'tuple')[(si + ci) % 2],
+                         p=PFORMS[(si + ci) % 4], mu=MUFORMS[ci % 4])
+            table = std_table(alph, J, 2, tier, aform=af, one_shift=True)
+            models = [(f'{o}+{h}', sc if uses_mu(h) else None) for o in ENDO_MODELS]
+            run_family(dict(base, forms=forms, corr=corr), models, table, rec)
+    rec.sample(dict(part='endo_lib', family=fam, alts=alts, structures=task['structs'][:3], correction_vectors=len(vecs)))
+
+
 # --------------------------------------------------------------------------- histories of calls on shared arguments
 # The model functions are pure: what a call returns depends on the values of its arguments only, not on the calls made
 # before with the same dict of utilities / dict of availabilities / nest object / dict of ln G_i / parameter objects
@@ -1107,6 +1270,15 @@ def hist_core_entries(kind):
     if kind == 'cnl':
         return ['logit', 'cnl', 'logcnl', 'cnlmu', 'logcnl_avail', 'logmev+get_mev_for_cross_nested_mu']
     return ['logit', 'loglogit', 'mev', 'logmev']
+
+
+def hist_endo_entries(kind):
+    """(entry points taking the dict of correction terms, entry points without correction they are paired with)"""
+    if kind == 'usermev':
+        return ENDO_MODELS + ENDO_ALIASES, ['mev', 'logmev', 'loglogit']
+    hs, old = ((NESTED_HELPERS, ['nested', 'lognested_mev_mu', 'logmev+get_mev_for_nested']) if kind == 'nested' else
+               (CNL_HELPERS, ['logcnl', 'cnlmu', 'mev+get_mev_for_cross_nested_mu']))
+    return [f'{o}+{h}' for h in (hs[0], hs[2]) for o in ENDO_MODELS], old
 
 
 def _with_two(structs, pick):
@@ -1181,6 +1353,8 @@ class HistContext:
         self.f = dict(default_forms(), **ctx.get('forms', {}))
         self.table = std_table(alph, self.J, 2, tier, aform=self.f['av'], one_shift=True)
         extra = user_logGi_columns(self.base_spec('mev'), self.table) if self.kind == 'usermev' else None
+        if ctx.get('corr') is not None and self.f.get('corr') == 'var':
+            extra = dict(extra or {}, **corr_columns(self.alts, ctx['corr'], len(self.table.groups) * self.J))
         self.db = self.table.database(extra)
         self._refs = {}
 
@@ -1189,15 +1363,18 @@ class HistContext:
         if model in ('logit', 'loglogit'):
             return dict(kind='logit', alts=self.alts, forms=dict(av=self.f['av']), model=model)
         if self.kind == 'usermev':
-            return dict(kind='usermev', alts=self.alts, gen=c['gen'], gmu=c['gmu'], forms=c['forms'], model=model)
-        spec = dict(kind=self.kind, alts=self.alts, alone=c['alone'], nests=c['nests'], mus=c['mus'], forms=c['forms'],
-                    model=model)
-        if uses_mu(model):
-            spec['mu'] = c['mu']
+            spec = dict(kind='usermev', alts=self.alts, gen=c['gen'], gmu=c['gmu'], forms=c['forms'], model=model)
+        else:
+            spec = dict(kind=self.kind, alts=self.alts, alone=c['alone'], nests=c['nests'], mus=c['mus'], forms=c['forms'],
+                        model=model)
+            if uses_mu(model):
+                spec['mu'] = c['mu']
+        if is_endo(model):
+            spec['corr'] = c['corr']
         return spec
 
     def ref(self, spec):
-        k = (spec['kind'], spec.get('mu'))
+        k = (spec['kind'], spec.get('mu'), spec.get('corr') is not None)
         if k not in self._refs:
             self._refs[k] = ref_spec_probs(spec, self.table)
         return self._refs[k]
@@ -1215,12 +1392,14 @@ class HistContext:
             A['log_gi'] = {a: Variable(f'LG_{a}') for a in alts[1:] + alts[:1]}
         if self.kind != 'usermev':
             A['mu'] = _param(f['mu'], 'mu_scale', c['mu'])
+        if c.get('corr') is not None:
+            A['correction'] = build_correction(alts, f.get('corr', 'float'), c['corr'])
         return A
 
     def call(self, model, A, choice, log_gi=None):
-        if model in ('mev', 'logmev'):
+        if model in ('mev', 'logmev') or model in ENDO_MODELS + ENDO_ALIASES:
             log_gi = A['log_gi']
-        return build_model(model, A['V'], A['av'], A['nests'], choice, A['mu'], log_gi)
+        return build_model(model, A['V'], A['av'], A['nests'], choice, A['mu'], log_gi, correction=A.get('correction'))
 
     def evaluate(self, expr):
         import numpy as np
@@ -1330,6 +1509,16 @@ def hist_histories(hc, task):
                 out.append([[x, 'loop', o], [y, 'var', None]])
                 out.append([[x, 'var', None], [y, 'loop', o]])
         return out
+    if sub == 'endo':
+        # the entry points that take correction terms, called before / after each other and before / after the entry
+        # points without correction, with ONE dict of correction terms; their per-alternative loops
+        new, old = hist_endo_entries(hc.kind)
+        out = [[[x, 'loop', o]] for x in new for o in loop_orders(hc.alts, hc.tier)]
+        for x in new + old:
+            for y in new + old:
+                if x in new or y in new:
+                    out.append([[x, 'var', None], [y, 'var', None]])
+        return out
     if sub == 'triples':
         C = hist_core_entries(hc.kind)
         return [[[C[x], 'var', None], [y, 'var', None], [z, 'var', None]] for x in task['xs'] for y in C for z in C]
@@ -1355,11 +1544,22 @@ def hist_tasks(alph, tier, seed):
             C = hist_core_entries(ctx['kind'])
             for ch in _chunks(range(len(C)), 2):
                 t.append(dict(part='hist', ci=ci, sub='triples', xs=ch, seed=seed, tier=tier))
+    # histories with the entry points that take correction terms: the context gets one correction vector (rotating)
+    ctxs = hist_contexts(alph, tier, seed)
+    for kind, cnt in (('usermev', 2), ('nested', 1), ('cnl', 1)):
+        cis = [ci for ci, c in enumerate(ctxs) if c['kind'] == kind]
+        sel = _rot(cis, int(seed), cnt) if quick else (cis if kind == 'usermev' else cis[int(seed) % 2::2])
+        for ci in sel:
+            vecs = corr_vectors(alph, ctxs[ci]['J'], 'reduced')
+            t.append(dict(part='hist', ci=ci, sub='endo', corr=vecs[(ci + int(seed)) % len(vecs)],
+                          cform=CORR_FORMS[ci % len(CORR_FORMS)], seed=seed, tier=tier))
     return t
 
 
 def _part_hist(task, alph, rec):
     ctx = hist_contexts(alph, task['tier'], task['seed'])[task['ci']]
+    if task.get('corr') is not None:
+        ctx = dict(ctx, corr=list(task['corr']), forms=dict(ctx.get('forms', {}), corr=task['cform']))
     hc = HistContext(alph, ctx, task['tier'], task['seed'])
     eval_all = task['tier'] == 'thorough'
     hs = hist_histories(hc, task)
@@ -1386,6 +1586,10 @@ PY_FORM_SWEEP = [
     ('fixbeta', 'none', 'int', True), ('freebeta', 'numeric', 'int', False), ('beta+level', 'none', 'numeric', True),
     ('freebeta-reused', 'numeric', 'int', False), ('num', 'const', 'int', False),
 ]
+
+
+# forms of the correction terms in a formula without data variables
+PY_CORR_FORMS = ['mixed', 'float', 'fixbeta', 'numeric', 'freebeta']
 
 
 def py_forms(k, si=0):
@@ -1491,11 +1695,14 @@ def pyeval_spec(spec, table, rec, log_gi_groups=None):
                 log_gi[a] = _beta(f'lg_{a}', x, 0) if reuse else (x if k % 2 else Numeric(x))
         if spec.get('mu') is not None:
             mu = _param(f['mu'], 'mu_scale', spec['mu'])
-        return V, av, nests, mu, log_gi
+        corr = None
+        if spec.get('corr') is not None:
+            corr = build_correction(alts, f.get('corr', 'float'), spec['corr'])
+        return V, av, nests, mu, log_gi, corr
 
     def model_of(A, a):
-        V, av, nests, mu, log_gi = A
-        return build_model(spec['model'], V, av, nests, a if f['ch'] == 'int' else Numeric(a), mu, log_gi)
+        V, av, nests, mu, log_gi, corr = A
+        return build_model(spec['model'], V, av, nests, a if f['ch'] == 'int' else Numeric(a), mu, log_gi, correction=corr)
 
     def value(expr):
         if ev == 'py':
@@ -1606,6 +1813,29 @@ def _part_pyeval(task, alph, rec):
                 run_family(dict(base, forms=forms), models, table, rec)
                 if task.get('others') and nests:
                     run_family(dict(base, forms=forms), other_entry_points(fam, si + k, sc), table, rec)
+                if task.get('endo') and nests:
+                    # the entry points with correction terms fed with the ln G_i of the library's helper (rotating)
+                    hs = NESTED_HELPERS if fam == 'nested' else CNL_HELPERS
+                    h = hs[(si + k) % len(hs)]
+                    vecs = corr_vectors(alph, J, 'reduced')
+                    run_family(dict(base, forms=dict(forms, corr=PY_CORR_FORMS[(si + k) % len(PY_CORR_FORMS)]),
+                                    corr=vecs[(si + k) % len(vecs)]),
+                               [(f'{o}+{h}', sc if uses_mu(h) else None) for o in ENDO_MODELS], table, rec)
+    elif fam == 'endo':
+        # mev_endogenous_sampling / logmev_endogenous_sampling (thorough: and the old names) on hand-supplied ln G_i
+        gens = usermev_generators(alph, J)
+        vecs = corr_vectors(alph, J, 'reduced')
+        models = [(m, None) for m in (ENDO_MODELS if tier == 'quick' else ENDO_MODELS + ENDO_ALIASES)]
+        for gi in task['gens']:
+            gen, gmu = gens[gi]
+            for k in task['forms']:
+                forms = py_forms(k + gi)
+                table = level_table(alph, J, 2, forms['av'], alph['levels'], two_shifted=True)
+                for ci in task['vecs']:
+                    spec = dict(kind='usermev', alts=alts, gen=gen, gmu=gmu, evaluator=ev, lg='homogeneous',
+                                forms=dict(forms, corr=PY_CORR_FORMS[(k + gi + ci) % len(PY_CORR_FORMS)]),
+                                corr=vecs[(ci + gi) % len(vecs)])
+                    run_family(spec, models, table, rec, log_gi_groups=user_logGi_groups(spec, table))
     else:
         raise ValueError(fam)
     rec.sample(dict(part='pyeval', family=fam, evaluator=EVALUATOR_NAMES[ev], alts=alts,
@@ -1649,6 +1879,21 @@ def pyeval_tasks(alph, tier, seed):
             t.append(mk(fam='cnl', J=J, ns=ns, ev='py', structs=list(ch), nforms=1 if quick else 2, others=True))
         for ch in _chunks(sel[seed % 4::8] if quick else sel[::2], 1):
             t.append(mk(fam='cnl', J=J, ns=ns, ev='c0', structs=list(ch), nforms=1, others=False))
+    # MEV models with correction terms on hand-supplied ln G_i (thorough: the nested / cross-nested tasks above feed them
+    # with the library's own ln G_i as well)
+    for J in range(2, Jmax + 1):
+        gsel = endo_gens(alph, J, tier, seed)
+        if quick:
+            gsel = gsel[seed % 2::2]
+        for ch in _chunks(gsel, 4 if J == 2 else 2):
+            t.append(mk(fam='endo', J=J, ev='py', gens=list(ch), forms=[seed % nf] if quick else [0, 3, 5, 6],
+                        vecs=[0, 3] if quick else list(range(6))))
+        for ch in _chunks(gsel[::3] if quick else gsel, 3):
+            t.append(mk(fam='endo', J=J, ev='c0', gens=list(ch), forms=[1] if quick else [1, 4], vecs=[1] if quick else [1, 4]))
+    if not quick:
+        for task in t:
+            if task['fam'] in ('nested', 'cnl'):
+                task['endo'] = True
     return t
 
 
